@@ -226,6 +226,7 @@ def run(chk):
     write_fault(chk)
     shutdown_fault(chk)
     two_connections(chk)
+    crash_then_reconnect(chk)
     chk.sample('play', {'proto': runs[0][0], 'history': repr(runs[0][1])[:200]}, k=1)
     chk.assumptions += ['the networking thread is run synchronously by the simulated transport; the server closes / stays idle after its script',
                         'packet ids of the server frames are looked up through pyCraft\'s tables (checked by C06/C07)']
@@ -329,6 +330,53 @@ def two_connections(chk):
             if what:
                 chk.violation('two-connections', 'two-connections:%d:%s:%s' % (pv, thr_a, thr_b), {'case': {'proto': pv, 'threshold_a': thr_a, 'threshold_b': thr_b}, 'observed': what},
                               'protocol %d, two live connections: %s' % (pv, what))
+
+
+def crash_then_reconnect(chk):
+    """A play session that dies of an error (end of stream right behind a burst of keep-alives, answers still queued) leaves
+    nothing behind: connect() on the same object then opens with the handshake and the login start, and the answers written in
+    the second session are those to the second server's keep-alives only."""
+    from minecraft.networking.connection import Connection
+    for pv in (47, 340, 757):
+        ids = proto.Ids(pv)
+        for burst in (3, 49, 50, 51, 60, 120):
+            first = [proto.frame(ids.login_success, ids.b_login_success())] + [proto.frame(ids.keep_alive, ids.b_keep_alive(1000 + i)) for i in range(burst)]
+            second = [proto.frame(ids.login_success, ids.b_login_success())] + [proto.frame(ids.keep_alive, ids.b_keep_alive(7 + i)) for i in range(3)]
+            net = sim.Net([sim.Server([b''.join(first)], end='eof'), sim.Server([b''.join(second)], end='idle')]).install()
+            excs = []
+            try:
+                conn = Connection('localhost', 25565, username='user', allowed_versions={pv}, handle_exception=lambda e, i: excs.append(e))
+                conn.connect()
+                net.run_threads(conn)
+                n1 = len(excs)
+                conn.connect()
+                net.run_threads(conn)
+            except Exception as e:
+                excs.append(e)
+                n1 = -1
+            finally:
+                net.uninstall()
+            chk.count('crash-then-reconnect', [pv, burst], True)
+            what = None
+            if n1 != 1 or not isinstance(excs[0], EOFError) or len(excs) != 1:
+                what = 'errors reported %s (expected the EOFError of the first session only)' % [exn_name(e) for e in excs]
+            else:
+                try:
+                    fr = proto.parse_frames(b''.join(net.servers[1].sends))
+                    import c09
+                    head = c09.parse_conn(None, b''.join(net.servers[1].sends))
+                    rest = [a_[1] for a_ in decode_answers(ids, fr[2:])]
+                    if fr[0][0] != 0 or head[0] != pv or head[3] != 2:
+                        what = 'the second session does not open with the handshake (first frame id %#x)' % fr[0][0]
+                    elif fr[1][0] != 0:
+                        what = 'the second frame of the second session is not the login start (id %#x)' % fr[1][0]
+                    elif rest != [7, 8, 9]:
+                        what = 'the second session answered keep-alives %s; its server sent [7, 8, 9]' % rest
+                except Exception as e:
+                    what = 'the second session\'s writes are unparseable (%s)' % exn_name(e)
+            if what:
+                chk.violation('crash-then-reconnect', 'crash-then-reconnect:%d:%d' % (pv, burst), {'case': {'proto': pv, 'burst': burst}, 'observed': what},
+                              'protocol %d, session ended by end of stream behind %d keep-alives, then connect(): %s' % (pv, burst, what))
 
 
 def shutdown_fault(chk):
